@@ -139,7 +139,13 @@ theorem resolvePath_eq_spec (pm : Nat) (dir tl avail : Bytes) (len : Nat) (buf :
       .val ((resolveSpec pm dir (avail.take len)).map
               (fun s => (s ++ [0]) ++ buf.drop (s ++ [0]).length)) := by
   have htl : (avail.take len).length = len := by simp [Nat.min_eq_left hlen]
+  have hg1 : nulGuard (Gen.WasiPath.rejectsNul && !Gen.WasiPath.nulCheckAfterLength) avail len = .val true := rfl
+  have hg2 : nulGuard (Gen.WasiPath.rejectsNul && Gen.WasiPath.nulCheckAfterLength) avail len
+      = .val (decide ((0 : UInt8) ∉ avail.take len)) := by
+    show noNulIn avail len = _
+    exact noNulIn_ok avail len hlen
   unfold resolvePath resolveSpec
+  rw [hg1, hg2]
   simp only [Gen.WasiPath.guardNonEmpty, Gen.WasiPath.guardAbs, Gen.WasiPath.guardRel,
     Gen.WasiPath.absChar, Gen.WasiPath.sepTestChar, Gen.WasiPath.sepChar, Gen.WasiPath.terminator, htl]
   by_cases h0 : len = 0
@@ -151,10 +157,6 @@ theorem resolvePath_eq_spec (pm : Nat) (dir tl avail : Bytes) (len : Nat) (buf :
       | cons a t => cases len with
         | zero => exact absurd rfl h0
         | succ k => simp
-    simp only [Gen.WasiPath.rejectsNul, if_true, noNulIn_ok avail len hlen, Out.bind_val]
-    by_cases hnul : (0 : UInt8) ∈ avail.take len
-    · simp [h0, hnul]
-    simp only [hnul, not_false_eq_true, decide_true, not_true_eq_false, if_false]
     rw [readAt_lt avail 0 hpos]
     simp only [Out.bind_val, hhead, h0, gt_iff_lt, Nat.pos_of_ne_zero h0, decide_true, not_true_eq_false,
       if_false, Bool.not_eq_true, decide_eq_false_iff_not, Nat.not_lt, Option.some.injEq]
@@ -162,7 +164,10 @@ theorem resolvePath_eq_spec (pm : Nat) (dir tl avail : Bytes) (len : Nat) (buf :
     · simp only [habs, if_true]
       by_cases hfit : len < pm
       · have : ¬ pm ≤ len := by omega
-        simp only [this, hfit, if_false, if_true, Option.map_some]
+        simp only [this, hfit, if_false, if_true]
+        by_cases hnul : (0 : UInt8) ∈ avail.take len
+        · simp [hnul]
+        simp only [hnul, not_false_eq_true, decide_true, not_true_eq_false, if_false, Option.map_some]
         rw [memcpy_first buf avail len hlen (by omega)]
         simp only [Out.bind_val]
         have hl : (avail.take len : Bytes).length = len := by simp [Nat.min_eq_left hlen]
@@ -177,7 +182,10 @@ theorem resolvePath_eq_spec (pm : Nat) (dir tl avail : Bytes) (len : Nat) (buf :
       · have hnot : ¬ pm ≤ dir.length + len + 1 := by omega
         have hdpos : dir.length ≠ 0 := by
           intro h; exact hdne (List.eq_nil_of_length_eq_zero h)
-        simp only [hnot, hfit, if_false, if_true, Option.map_some, hdpos]
+        simp only [hnot, hfit, if_false, if_true]
+        by_cases hnul : (0 : UInt8) ∈ avail.take len
+        · simp [hnul]
+        simp only [hnul, not_false_eq_true, decide_true, not_true_eq_false, if_false, Option.map_some, hdpos]
         rw [memcpy_first buf (dir ++ 0 :: tl) dir.length (by simp) (by omega)]
         simp only [Out.bind_val, getLast_readAt dir tl hdne]
         have htk : ((dir ++ 0 :: tl).take dir.length : Bytes) = dir := by simp
@@ -201,6 +209,24 @@ theorem resolvePath_eq_spec (pm : Nat) (dir tl avail : Bytes) (len : Nat) (buf :
           simp
       · have : pm ≤ dir.length + len + 1 := by omega
         simp [this, hfit]
+
+/-- **an over-long length is rejected before the path bytes are looked at**: only `path[0]` is
+    read (the guest memory may END right after it) when the branch's length guard fails -/
+theorem resolvePath_long_reads_only_first (pm : Nat) (dir tl : Bytes) (c0 : UInt8) (rest : Bytes) (len : Nat)
+    (buf : Bytes) (hdir0 : (0 : UInt8) ∉ dir) (hlen : 0 < len)
+    (hlong : (c0 = 47 ∧ pm ≤ len) ∨ (c0 ≠ 47 ∧ pm ≤ dir.length + len + 1)) :
+    resolvePath pm (dir ++ 0 :: tl) (c0 :: rest) len buf = .val none := by
+  have hg1 : nulGuard (Gen.WasiPath.rejectsNul && !Gen.WasiPath.nulCheckAfterLength) (c0 :: rest) len = .val true := rfl
+  unfold resolvePath
+  rw [hg1]
+  simp only [Gen.WasiPath.guardNonEmpty, Gen.WasiPath.guardAbs, Gen.WasiPath.guardRel, Gen.WasiPath.absChar,
+    gt_iff_lt, hlen, decide_true, not_true_eq_false, if_false, Out.bind_val, readAt, List.getElem?_cons_zero]
+  rcases hlong with ⟨h1, h2⟩ | ⟨h1, h2⟩
+  · have : ¬ len < pm := by omega
+    simp [h1, this]
+  · rw [cstrlen_ok dir tl hdir0]
+    have : ¬ dir.length + len + 1 < pm := by omega
+    simp [h1, this]
 
 /-! ### strcpy / cstr -/
 
